@@ -184,6 +184,52 @@ type Path struct {
 	Fn     *ssa.Function
 	Blocks []*ssa.BasicBlock
 	facts  []map[atomKey]bool // facts known at entry of Blocks[i] (shared, copy-on-write)
+
+	// Virtual inlining (PathOpts.Inline): the path is a sequence of segments. Segment i
+	// covers Blocks[i].Instrs[segFrom[i]:segTo[i]] and belongs to call frame segFrame[i];
+	// a caller block that contains an inlined call appears once up to and including the
+	// call, and again from the instruction after it. All nil when nothing was inlined.
+	segFrom, segTo []int
+	segFrame       []int
+	frames         []pframe
+	retBind        map[ssa.Value]boundRet // call result (call or extract) -> value returned by the inlined callee
+	throughCalls   bool                   // Resolve follows retBind (off by default: rules match call results as such)
+}
+
+type pframe struct {
+	fn      *ssa.Function
+	call    *ssa.Call // nil for the root frame
+	parent  int
+	callSeg int // ordinal of the caller segment that ends with the call
+}
+
+type boundRet struct {
+	v   ssa.Value
+	seg int // ordinal of the callee segment holding the return
+}
+
+// instrs returns the instructions covered by segment i.
+func (p *Path) instrs(i int) []ssa.Instruction {
+	b := p.Blocks[i]
+	if p.segFrom == nil {
+		return b.Instrs
+	}
+	return b.Instrs[p.segFrom[i]:p.segTo[i]]
+}
+
+// endsBlock: segment i runs to the terminator of its block.
+func (p *Path) endsBlock(i int) bool {
+	return p.segTo == nil || p.segTo[i] == len(p.Blocks[i].Instrs)
+}
+
+// startsBlock: segment i begins at the entry of its block.
+func (p *Path) startsBlock(i int) bool {
+	return p.segFrom == nil || p.segFrom[i] == 0
+}
+
+// Inlined reports whether ins lies in an inlined callee (not in the function the path was enumerated for).
+func (p *Path) Inlined(ins ssa.Instruction) bool {
+	return ins.Parent() != p.Fn
 }
 
 // Exit returns the final instruction (Return, Panic) of the path.
@@ -200,8 +246,8 @@ func (p *Path) Returns() *ssa.Return {
 
 // ForEach visits the instructions of the path in order; i is the block ordinal.
 func (p *Path) ForEach(f func(i int, ins ssa.Instruction) bool) {
-	for i, b := range p.Blocks {
-		for _, ins := range b.Instrs {
+	for i := range p.Blocks {
+		for _, ins := range p.instrs(i) {
 			if !f(i, ins) {
 				return
 			}
@@ -210,17 +256,49 @@ func (p *Path) ForEach(f func(i int, ins ssa.Instruction) bool) {
 }
 
 // Resolve maps phis to the operand selected by the path, as seen at block ordinal at.
+// With inlining it also maps a parameter of an inlined callee to the argument of the
+// call, and the result of an inlined call to the value the callee returned on this path.
 func (p *Path) Resolve(v ssa.Value, at int) ssa.Value {
-	for k := 0; k < 32; k++ {
+	if at > len(p.Blocks)-1 {
+		at = len(p.Blocks) - 1
+	}
+	for k := 0; k < 48; k++ {
 		v = strip(v)
+		if p.frames != nil && at >= 0 {
+			if par, ok := v.(*ssa.Parameter); ok && par.Parent() != p.Fn {
+				// the innermost enclosing frame of segment 'at' that runs par's function
+				f := p.segFrame[at]
+				for f > 0 && p.frames[f].fn != par.Parent() {
+					f = p.frames[f].parent
+				}
+				if f > 0 {
+					idx := -1
+					for i, q := range par.Parent().Params {
+						if q == par {
+							idx = i
+						}
+					}
+					args := callArgs(&p.frames[f].call.Call)
+					if idx >= 0 && idx < len(args) {
+						v, at = args[idx], p.frames[f].callSeg
+						continue
+					}
+				}
+				return v
+			}
+			if br, ok := p.retBind[v]; ok && br.seg <= at && p.throughCalls {
+				v, at = br.v, br.seg
+				continue
+			}
+		}
 		phi, ok := v.(*ssa.Phi)
 		if !ok {
 			return v
 		}
-		// latest occurrence of phi's block at or before 'at'
+		// latest entry into phi's block at or before 'at'
 		j := -1
-		for i := min(at, len(p.Blocks)-1); i >= 0; i-- {
-			if p.Blocks[i] == phi.Block() {
+		for i := at; i >= 0; i-- {
+			if p.Blocks[i] == phi.Block() && p.startsBlock(i) {
 				j = i
 				break
 			}
@@ -251,6 +329,9 @@ func (p *Path) Took(i int) (isIf bool, trueEdge bool) {
 		return false, false
 	}
 	b := p.Blocks[i]
+	if !p.endsBlock(i) {
+		return false, false
+	}
 	if _, ok := b.Instrs[len(b.Instrs)-1].(*ssa.If); !ok {
 		return false, false
 	}
@@ -274,7 +355,7 @@ func (p *Path) Nilness(v ssa.Value, i int) nilState {
 // before instruction 'before' if in that block), the last Store to addr.
 func (p *Path) lastStoreBefore(addr ssa.Value, i int, before ssa.Instruction) (*ssa.Store, int) {
 	for bi := i; bi >= 0; bi-- {
-		instrs := p.Blocks[bi].Instrs
+		instrs := p.instrs(bi)
 		end := len(instrs)
 		if bi == i && before != nil {
 			for k, ins := range instrs {
@@ -465,7 +546,14 @@ var tierThorough bool
 
 type PathOpts struct {
 	MaxPaths  int // default 100000
-	MaxVisits int // visits of one block per path, default 2
+	MaxVisits int // visits of one block per path (and per call frame), default 2
+	// Inline, when set, makes the walker descend into static callees it approves
+	// (root is the function being enumerated): the callee's blocks become part of the
+	// path, its parameters resolve to the arguments, and what it returns is bound to the
+	// call's results. Used to make rules independent of how a function is cut into helpers.
+	Inline      func(root, callee *ssa.Function) bool
+	InlineDepth int  // default 3
+	NoInline    bool // walkAll's default policy (localHelper) is not wanted
 }
 
 // WalkPaths enumerates entry-to-exit paths of fn. visit returns false to stop.
@@ -477,6 +565,9 @@ func WalkPaths(fn *ssa.Function, opts PathOpts, visit func(p *Path) bool) (n int
 	if opts.MaxVisits == 0 {
 		opts.MaxVisits = 2
 	}
+	if opts.InlineDepth == 0 {
+		opts.InlineDepth = 3
+	}
 	if tierThorough {
 		// one more unrolling of every loop, and room for the extra paths
 		opts.MaxVisits++
@@ -485,46 +576,141 @@ func WalkPaths(fn *ssa.Function, opts PathOpts, visit func(p *Path) bool) (n int
 	if len(fn.Blocks) == 0 {
 		return 0, true
 	}
-	visits := map[*ssa.BasicBlock]int{}
+	type vkey struct {
+		frame int
+		b     *ssa.BasicBlock
+	}
+	inl := opts.Inline != nil
+	visits := map[vkey]int{}
 	p := &Path{Fn: fn}
+	if inl {
+		p.frames = []pframe{{fn: fn, parent: -1, callSeg: -1}}
+		p.retBind = map[ssa.Value]boundRet{}
+		p.segFrom, p.segTo, p.segFrame = []int{}, []int{}, []int{}
+	}
 	complete = true
 	stop := false
-	var rec func(b *ssa.BasicBlock, facts map[atomKey]bool)
-	rec = func(b *ssa.BasicBlock, facts map[atomKey]bool) {
+	emit := func() {
+		n++
+		if n > opts.MaxPaths {
+			complete = false
+			stop = true
+			return
+		}
+		cp := &Path{Fn: fn, Blocks: append([]*ssa.BasicBlock(nil), p.Blocks...), facts: append([]map[atomKey]bool(nil), p.facts...)}
+		if inl {
+			cp.segFrom = append([]int(nil), p.segFrom...)
+			cp.segTo = append([]int(nil), p.segTo...)
+			cp.segFrame = append([]int(nil), p.segFrame...)
+			cp.frames = append([]pframe(nil), p.frames...)
+			cp.retBind = make(map[ssa.Value]boundRet, len(p.retBind))
+			for k, v := range p.retBind {
+				cp.retBind[k] = v
+			}
+		}
+		if !visit(cp) {
+			stop = true
+		}
+	}
+	depthOf := func(fr int) int {
+		d := 0
+		for fr > 0 {
+			d++
+			fr = p.frames[fr].parent
+		}
+		return d
+	}
+	onStack := func(fr int, g *ssa.Function) bool {
+		for fr >= 0 {
+			if p.frames[fr].fn == g {
+				return true
+			}
+			fr = p.frames[fr].parent
+		}
+		return false
+	}
+	type contFn func(ret *ssa.Return, facts map[atomKey]bool)
+	var rec func(b *ssa.BasicBlock, from int, facts map[atomKey]bool, fr int, k contFn)
+	rec = func(b *ssa.BasicBlock, from int, facts map[atomKey]bool, fr int, k contFn) {
 		if stop {
 			return
 		}
-		if visits[b] >= opts.MaxVisits {
-			return // bounded unrolling: this path is dropped (loop iterated more often)
-		}
-		// kill facts about values (re)defined in b
-		if len(facts) > 0 {
-			var kill []atomKey
-			for k := range facts {
-				if definedIn(k.x, b) || definedIn(k.y, b) {
-					kill = append(kill, k)
+		if from == 0 {
+			if visits[vkey{fr, b}] >= opts.MaxVisits {
+				return // bounded unrolling: this path is dropped (loop iterated more often)
+			}
+			// kill facts about values (re)defined in b
+			if len(facts) > 0 {
+				var kill []atomKey
+				for key := range facts {
+					if definedIn(key.x, b) || definedIn(key.y, b) {
+						kill = append(kill, key)
+					}
+				}
+				if len(kill) > 0 {
+					nf := make(map[atomKey]bool, len(facts))
+					for key, v := range facts {
+						nf[key] = v
+					}
+					for _, key := range kill {
+						delete(nf, key)
+					}
+					facts = nf
 				}
 			}
-			if len(kill) > 0 {
-				nf := make(map[atomKey]bool, len(facts))
-				for k, v := range facts {
-					nf[k] = v
+			visits[vkey{fr, b}]++
+			defer func() { visits[vkey{fr, b}]-- }()
+		}
+		// the segment runs to the first call the caller wants inlined, or to the end of the block
+		to := len(b.Instrs)
+		var callee *ssa.Function
+		var call *ssa.Call
+		if inl && depthOf(fr) < opts.InlineDepth {
+			for idx := from; idx < len(b.Instrs)-1; idx++ {
+				c, ok := b.Instrs[idx].(*ssa.Call)
+				if !ok {
+					continue
 				}
-				for _, k := range kill {
-					delete(nf, k)
+				g := staticCallee(&c.Call)
+				if g == nil || len(g.Blocks) == 0 || onStack(fr, g) || !opts.Inline(fn, g) {
+					continue
 				}
-				facts = nf
+				to, callee, call = idx+1, g, c
+				break
 			}
 		}
-		visits[b]++
 		p.Blocks = append(p.Blocks, b)
 		p.facts = append(p.facts, facts)
+		if inl {
+			p.segFrom = append(p.segFrom, from)
+			p.segTo = append(p.segTo, to)
+			p.segFrame = append(p.segFrame, fr)
+		}
 		at := len(p.Blocks) - 1
 		defer func() {
-			visits[b]--
-			p.Blocks = p.Blocks[:len(p.Blocks)-1]
-			p.facts = p.facts[:len(p.facts)-1]
+			p.Blocks = p.Blocks[:at]
+			p.facts = p.facts[:at]
+			if inl {
+				p.segFrom, p.segTo, p.segFrame = p.segFrom[:at], p.segTo[:at], p.segFrame[:at]
+			}
 		}()
+		if callee != nil {
+			nfr := len(p.frames)
+			p.frames = append(p.frames, pframe{fn: callee, call: call, parent: fr, callSeg: at})
+			rec(callee.Blocks[0], 0, facts, nfr, func(ret *ssa.Return, f2 map[atomKey]bool) {
+				retSeg := len(p.Blocks) - 1
+				f3, bound := bindResults(p, call, ret, retSeg, f2)
+				for _, v := range bound {
+					p.retBind[v] = boundRet{retValueFor(call, v, ret), retSeg}
+				}
+				rec(b, to, f3, fr, k)
+				for _, v := range bound {
+					delete(p.retBind, v)
+				}
+			})
+			p.frames = p.frames[:nfr]
+			return
+		}
 		last := b.Instrs[len(b.Instrs)-1]
 		switch t := last.(type) {
 		case *ssa.If:
@@ -536,8 +722,8 @@ func WalkPaths(fn *ssa.Function, opts PathOpts, visit func(p *Path) bool) (n int
 					continue
 				}
 				nf := make(map[atomKey]bool, len(facts)+2)
-				for k, v := range facts {
-					nf[k] = v
+				for kk, v := range facts {
+					nf[kk] = v
 				}
 				nf[key] = (edgeTrue == pol)
 				// also record under the unresolved condition and with phi operands resolved
@@ -556,25 +742,75 @@ func WalkPaths(fn *ssa.Function, opts PathOpts, visit func(p *Path) bool) (n int
 						nf[k3] = (edgeTrue == p2)
 					}
 				}
-				rec(s, nf)
+				rec(s, 0, nf, fr, k)
 			}
 		case *ssa.Jump:
-			rec(b.Succs[0], facts)
-		default: // Return, Panic
-			n++
-			if n > opts.MaxPaths {
-				complete = false
-				stop = true
-				return
+			rec(b.Succs[0], 0, facts, fr, k)
+		case *ssa.Return:
+			if k != nil {
+				k(t, facts)
+			} else {
+				emit()
 			}
-			cp := &Path{Fn: fn, Blocks: append([]*ssa.BasicBlock(nil), p.Blocks...), facts: append([]map[atomKey]bool(nil), p.facts...)}
-			if !visit(cp) {
-				stop = true
+		default: // Panic: the path ends here, in whatever frame
+			emit()
+		}
+	}
+	rec(fn.Blocks[0], 0, map[atomKey]bool{}, 0, nil)
+	return n, complete
+}
+
+// retValueFor: the callee value that result v (the call itself, or an extract of it) stands for.
+func retValueFor(call *ssa.Call, v ssa.Value, ret *ssa.Return) ssa.Value {
+	if ex, ok := v.(*ssa.Extract); ok {
+		if ex.Index < len(ret.Results) {
+			return ret.Results[ex.Index]
+		}
+		return v
+	}
+	if len(ret.Results) == 1 {
+		return ret.Results[0]
+	}
+	return v
+}
+
+// bindResults translates what is known about the values returned by an inlined callee
+// (nil-ness, truth) into facts about the caller's results of that call, and lists the
+// caller values that now stand for a returned value.
+func bindResults(p *Path, call *ssa.Call, ret *ssa.Return, retSeg int, facts map[atomKey]bool) (map[atomKey]bool, []ssa.Value) {
+	var targets []ssa.Value
+	if len(ret.Results) == 1 {
+		targets = append(targets, call)
+	} else if call.Referrers() != nil {
+		for _, r := range *call.Referrers() {
+			if ex, ok := r.(*ssa.Extract); ok && ex.Index < len(ret.Results) {
+				targets = append(targets, ex)
 			}
 		}
 	}
-	rec(fn.Blocks[0], map[atomKey]bool{})
-	return n, complete
+	if len(targets) == 0 {
+		return facts, nil
+	}
+	nf := make(map[atomKey]bool, len(facts)+len(targets))
+	for k, v := range facts {
+		nf[k] = v
+	}
+	for _, t := range targets {
+		rv := retValueFor(call, t, ret)
+		if isNillable(t.Type()) {
+			switch nilness(p, rv, retSeg, facts, 0) {
+			case isNil:
+				nf[atomKey{token.EQL, canon(t), nil}] = true
+			case nonNil:
+				nf[atomKey{token.EQL, canon(t), nil}] = false
+			}
+		} else if b, ok := t.Type().Underlying().(*types.Basic); ok && b.Kind() == types.Bool {
+			if val, known := evalCond(p, rv, retSeg, facts); known {
+				nf[atomKey{token.ILLEGAL, canon(t), nil}] = val
+			}
+		}
+	}
+	return nf, targets
 }
 
 // ---------------------------------------------------------------------------
